@@ -112,14 +112,27 @@ def check_c15(tier, seed, log=print):
         for nexts in (0, 1, 2):
             for x in ns:
                 reqs.append('BUMP b %s %d %d' % (P.hexs(b), nexts, x))
+    # every Source method on the Deref wrappers (String, Box<str>, &str, Vec<u8>, Box<[u8]>, &[u8]) must answer like the base
+    # impl, and the base impls like std (is_char_boundary); bump relies on Source::is_boundary of whatever source type is used
+    src_reqs = ['SRC ' + P.hexs(x.encode('utf-8')) for x in srcs_s + ['aé中😀z', '\u00c0\u0400\u2013x']] + ['SRC ' + P.hexs(b) for b in srcs_b + [b'\x80\xbf', b'\xc3']]
     evals = 0
     nontriv = set()
     samples = []
     tie_dis = 0
+    src_ok = 0
     for name, (binp, err) in bins.items():
         if binp is None:
             run.violation('libcheck-build', dict(config=name, stderr=err), no_input=True)
             continue
+        sout, _ = run_lib(binp, src_reqs)
+        for rq in src_reqs:
+            v = sout.get(rq)
+            if v == 'SAME':
+                src_ok += 1
+            else:
+                run.violation('source-impl', dict(config=name, request=rq, observed=v,
+                                                  what='a Source method answers differently on a Deref wrapper (or on str / [u8] than std prescribes): bump accepts or rejects different ends depending on the source type'),
+                              key='srcimpl|%s' % rq)
         out, rc = run_lib(binp, reqs)
         # model queries need the span before the bump, which the real run reports
         qs = {}
@@ -181,7 +194,7 @@ def check_c15(tier, seed, log=print):
                                   no_input=True, key='bumptie|%s' % rq)
     run.coverage.update(dict(obligations=au['obligations'], discharged=au['discharged'], theorems=au['names'], axioms=au['axioms'],
                              checker_cmd=au['checker_cmd'], trusted_base=TRUSTED_BASE,
-                             evaluations=evals, distinct_nontrivial=len(nontriv),
+                             evaluations=evals, distinct_nontrivial=len(nontriv), source_wrapper_probes_ok=src_ok,
                              rule='Lexer::bump(n) on str and [u8] lexers at three positions, n over 0..len+2, usize::MAX-k, 2^63, 2^64-2 and wrap-around values, in debug and release builds with and without forbid_unsafe, under catch_unwind; '
                                   'afterwards span() is inspected and slice()/remainder() only when the span is valid; oracle = the property itself (succeeds iff new end representable, in range and on a boundary; span valid in every case); non-trivial = n > len',
                              samples=samples, configs=list(bins), model_vs_impl_disagreements=tie_dis))
@@ -282,9 +295,17 @@ def check_c14(tier, seed, log=print):
     reqs = []
     for k in range(n_hist):
         s = R.choice(srcs).encode('utf-8')
-        partial = 1 if R.random() < 0.2 else 0
+        partial = 1 if R.random() < 0.35 else 0
         ops = gen_history(R, len(s))
         reqs.append('API %s %d %s' % (P.hexs(s), partial, ' '.join(ops)))
+    # directed histories: a partial lexer that has answered None in the middle of the source is bumped (in range) and asked
+    # again, through the same handle, with next and with spanned-next
+    for src in ['ab', 'x1 y2', 'ab 12', 'a', 'hello world 42']:
+        for first in ('snext', 'next'):
+            for j in (1, 2, 3):
+                for n in (1, 2):
+                    ops = [first, '0'] * j + ['bump', '0', str(n), first, '0', first, '0', 'clone', '0', first, '1']
+                    reqs.append('API %s 1 %s' % (P.hexs(src.encode('utf-8')), ' '.join(ops)))
     # the same over a [u8] source (two binary token types): every index <= len is a boundary there
     bsrcs = [b'', b'a', b'ab \xff', b'\x80\x81a b', b'ab  cd', b'x\xc3', b'hello \xfe\xff z']
     for k in range(n_hist // 2):
